@@ -1,5 +1,4 @@
 import XsdataModel.Dict.Frag
 import XsdataModel.Proofs.C04Witness
 open Py Xs.Bind Xs.Dict Proofs.C04Witness
-#eval (poolsUnambiguous subCtx .dict, poolsUnambiguous okwCtx .filterNone, poolsUnambiguous wrapCtx .dict, poolsUnambiguous wrapCtx .filterNone, poolsUnambiguous genwCtx .filterNone)
-#eval (valOKu benv0 subCtx .dict 3 "P".toList sub_value, valOKu benv0 wrapCtx .dict 3 "P".toList wrap_good, valOKu benv0 okwCtx .dict 3 "Doc".toList okw_value)
+#eval (valOKj benv0 compCtx .dict 3 "H".toList comp_value, valOKj benv0 compCtx .filterNone 3 "H".toList comp_value, valOKj benv0 genwCtx .dict 4 "G".toList genw_value)
